@@ -362,7 +362,7 @@ fn apply_inner(
     let region = filter
         .rect()
         .transform(ts)
-        .map(|r| r.to_int_rect())
+        .and_then(|r| crate::geom::to_int_rect(r.to_rect()))
         .ok_or(Error::InvalidRegion)?;
 
     #[cfg(resvg_verif)]
@@ -382,7 +382,7 @@ fn apply_inner(
         let mut subregion = primitive
             .rect()
             .transform(ts)
-            .map(|r| r.to_int_rect())
+            .and_then(|r| crate::geom::to_int_rect(r.to_rect()))
             .ok_or(Error::InvalidRegion)?;
 
         // `feOffset` inherits its region from the input.
